@@ -11,7 +11,8 @@ the file."  Execution order of phases: setup, act, before-assert, assert, cleanu
 
 Three-valued analysis:  'accept' (the manual defines the program and it is valid), 'reject' (the manual makes it
 a symbol error: undefined / defined twice / type not admitted by the context -> VALIDATION_ERROR, nothing is
-executed), 'unspec' (the manual leaves the construct open -- see UNSPEC notes; generators drop such programs).
+executed), 'unspec' (the manual leaves the construct open, or it is outside the subset this reference can
+evaluate -- every `raise Unspecified(...)` below says why; generators drop such programs).
 
 ---------------------------------------------------------------------------------------------------------------
 Value syntax trees (all lists/dicts/strings, JSON-able)
@@ -792,6 +793,20 @@ class Model:
                     if v == '' or v.startswith('/') or '..' in v.split('/') or '' in v.split('/'):
                         raise Unspecified('odd file name %r' % v)
 
+    def _static_checks(self, st):
+        """Regexes, glob patterns and file names are validated by Exactly whether or not they are ever evaluated
+        (an invalid REGEX is a validation error); the reference only speaks about programs in which all of them,
+        after substitution, are inside the plain subset it can evaluate."""
+        toks = []
+        _static_tokens({k: v for k, v in st.items() if k in ('v', 'ts', 'pg', 'tm', 'im', 'fs', 'fm', 'fsm')}, toks)
+        for kind, tok in toks:
+            if kind == 'regex':
+                self._regex(tok)
+            elif kind in ('glob', 'fc-name'):
+                self._simple_name(tok)
+            else:
+                self._simple_name(tok, slashes=True)
+
     # ---- values ------------------------------------------------------------------------------------------
     def frag_str(self, f):
         if f[0] == 't':
@@ -1059,6 +1074,7 @@ class Model:
                 if d is not None:
                     self._deferred(d)
             self._post_checks(refs)
+            self._static_checks(st)
             if st['k'] == 'def':
                 if st['n'] in self.env:
                     raise Rejected('duplicate', st['n'], 'def', i)
@@ -1137,6 +1153,38 @@ def _lines(text):
     ret = text.split('\n')
     ret = [l + '\n' for l in ret[:-1]] + ([ret[-1]] if ret[-1] != '' else [])
     return ret
+
+
+def _static_tokens(node, out):
+    """collects (kind, token) for every REGEX ('regex'), GLOB of `name` ('glob') and file name inside a literal
+    files-condition / files-source ('fname', slashes allowed for files-source) below NODE"""
+    if isinstance(node, dict):
+        for v in node.values():
+            _static_tokens(v, out)
+        return
+    if not isinstance(node, (list, tuple)) or not node:
+        return
+    tag = node[0]
+    if isinstance(tag, str):
+        if tag in ('matches', 'grep', 'replace') and len(node) >= 2 and _is_token(node[1]):
+            out.append(('regex', node[1]))
+        elif tag == 'name' and len(node) == 2 and _is_token(node[1]):
+            out.append(('glob', node[1]))
+        elif tag == 'lit' and len(node) == 2:
+            for ent in node[1]:
+                if len(ent) == 2 and _is_token(ent[0]):
+                    out.append(('fc-name', ent[0]))
+                elif len(ent) == 3 and ent[0] in ('file', 'dir') and _is_token(ent[1]):
+                    out.append(('fs-name', ent[1]))
+        elif tag in ('t', 'r'):
+            return
+    for x in node:
+        _static_tokens(x, out)
+
+
+def _is_token(x):
+    return isinstance(x, (list, tuple)) and len(x) == 2 and x[0] in ('n', 's', 'h', 'e', 'd') and \
+        isinstance(x[1], (list, tuple))
 
 
 def analyse(prog, roots=None):
